@@ -105,3 +105,11 @@ impl IndexMut<StackDepth> for Stack {
         &mut self.entries[depth.depth]
     }
 }
+
+#[cfg(feature = "verif-hooks")]
+impl Stack {
+    /// Verification hook: number of goals currently on the stack.
+    pub(super) fn verif_len(&self) -> usize {
+        self.entries.len()
+    }
+}
